@@ -36,8 +36,9 @@ def ValidAccepted : Prop :=
 statement holds on `InSubset` — at every scalar only the keywords of its type, integer-typed bounds
 written as integers (excludes D10), distinct member names, `required` naming declared members —
 for scalars with bounds and nullable type lists, enum, const, arrays with minItems/maxItems, objects
-with required / additionalProperties true|false|absent, map objects (`additionalProperties: S`),
-recursive `$ref`, anyOf and oneOf; for both styles and all three constraint routings. -/
+with required / additionalProperties true|false|absent, map objects (`additionalProperties: S`), free-form and
+map objects behind a nullable type list (`"type": ["object", "null"]`: `Schema.ndict`), recursive `$ref`, anyOf and
+oneOf, allOf and discriminators; for both styles and all three constraint routings. -/
 theorem valid_accepted_partial (st : Style) (o : Opts) (re : Regex) (defs : Defs)
     (hd : defsInSubset defs = true) (f g : Nat) (ctx : Ctx) (s : Schema) (v : Json)
     (hs : s.inSubset = true) (hv : validJ re f defs s v = true) :
@@ -209,6 +210,32 @@ theorem valid_accepted_false_D10 : ¬ ValidAccepted := by
 
 /-- the witness lies outside `InSubset`, as it must -/
 example : (Schema.scalar .integer false { exclMax := some ⟨75, 1⟩ }).inSubset = false := by
+  decide +kernel
+
+/-! ### nullable type lists on objects (`"type": ["object", "null"]` without `properties`: `Schema.ndict`) -/
+
+/-- NULL IS KEPT, in every place: for every style, option vector, place `ctx` (document / definition, member,
+`additionalProperties` value, array item, union alternative), value schema and environment, the type generated
+for a nullable free-form / map object accepts `null` (strong conclusion) — the `null` of the type list reaches
+the IR as `Optional[…]` wherever the schema stands, not only where a member-level `Optional` would hide its loss. -/
+theorem nullable_object_accepts_null (st : Style) (o : Opts) (re : Regex) (D : IRDefs) (g : Nat) (ctx : Ctx)
+    (value : Schema) : acceptsTy st re (g + 2) D (tr st o ctx (.ndict value)) .null = .accept := by
+  cases ctx <;> simp [tr, acceptsTy, Json.isNull, Tri.and, checkCons]
+
+/-- …and it is an instance of the general theorem: `ndict` is inside `InSubset` whenever its value schema is -/
+example (value : Schema) (h : value.inSubset = true) : (Schema.ndict value).inSubset = true := by
+  simpa [Schema.inSubset] using h
+
+/-- WITNESS that the `Optional` is needed at the place itself: the same dictionary type without it — what the
+object branch of `parse_item` builds for a non-nullable free-form object — rejects the valid `null`, as an array
+item and as a map value (only directly on a non-required member would pydantic's member-level Optional hide it) -/
+theorem nullable_lost_rejects_null :
+    validJ (fun _ _ => true) 4 [] (.array (.ndict .any) none none) (.arr [.null]) = true ∧
+    acceptsTy .v2 (fun _ _ => true) 6 [] (tr .v2 {} .plain (.array (.ndict .any) none none)) (.arr [.null]) = .accept ∧
+    acceptsTy .v2 (fun _ _ => true) 6 [] (.list (.dict .any)) (.arr [.null]) = .reject ∧
+    validJ (fun _ _ => true) 4 [] (.dict (.ndict .any)) (.obj [("k".toList, .null)]) = true ∧
+    acceptsTy .v2 (fun _ _ => true) 6 [] (tr .v2 {} .plain (.dict (.ndict .any))) (.obj [("k".toList, .null)]) = .accept ∧
+    acceptsTy .v2 (fun _ _ => true) 6 [] (.dict (.dict .any)) (.obj [("k".toList, .null)]) = .reject := by
   decide +kernel
 
 end Dcg.Props.C03
